@@ -1,3 +1,7 @@
 // C13: instantiations for T = int, N = 1,2,3
 #include <C13_impl.hpp>
-void c13::reg_int() { c13::reg_full<int>(); }
+void c13::reg_int()
+{
+  c13::reg_full<int>();
+  c13::reg_callbacks<int>(); // init_max / init_dim with counting, stream-like and throwing callbacks
+}
